@@ -15,7 +15,7 @@ EXTENDS Integers, Sequences, SequencesExt, FiniteSets
 
 AsciiDigits == {"0", "1", "2", "3", "4", "5", "6", "7", "8", "9"}
 DigitSyms   == AsciiDigits \cup {"u"}
-Symbols     == DigitSyms \cup {"-", "+", "_", "s", "b", "n", "r", "a", "g"}
+Symbols     == DigitSyms \cup {"-", "+", "_", "s", "b", "n", "r", "a", "c", "g"}   \* "c": a second, different "other" character
 
 IsSpace(c) == c \in {"b", "n", "r", "g"}       \* what str.rstrip() removes
 IsIntSpace(c) == c \in {"b", "n", "r"}         \* what int() tolerates around the digits
